@@ -45,7 +45,11 @@ META = {
 
 def run_one(fl, sc):
     exe = build.harness("lifecycle.cpp", fl)
-    return proc.run([exe, "--log=root.thres:critical"], stdin=gen.to_text(sc), timeout=120)
+    # Under ASan a ForcefulKillException unwinding on a swapped (raw/boost) actor stack makes the sanitizer report inside its own
+    # sigaltstack interceptor ("ASan is ignoring requested __asan_handle_no_return ... false positive error reports may follow"):
+    # the sanitized runs therefore use the thread context factory, whose actor stacks ASan knows about.
+    extra = ["--cfg=contexts/factory:thread"] if fl == "asan" else []
+    return proc.run([exe, "--log=root.thres:critical"] + extra, stdin=gen.to_text(sc), timeout=300)
 
 
 def crash_key(out):
@@ -112,7 +116,7 @@ def run(ctx):
     ctx.sample({"generated[0]": gen.to_text(scs[len(gen.DIRECTED) + len(gen.KNOWN)][1])})
     for fl in ("hooks", "asan"):
         build.harness("lifecycle.cpp", fl)
-    nasan = max(12, n // 10)
+    nasan = max(10, n // 20)
     jobs = [("hooks", k, s) for k, s in scs] + [("asan", k, s) for k, s in scs[:len(gen.DIRECTED)] + scs[len(gen.DIRECTED) + len(gen.KNOWN):][:nasan]]
 
     def one(j):
